@@ -327,6 +327,9 @@ func section_validate(c *core.Ctx, tok string) {
 			ps := []peer{peers[2], peers[(i)%len(peers)]}
 			if quick && remote != strings.Contains(lf, "REMOTE") {
 				ps = ps[:1]
+				if i%2 == 1 {
+					continue
+				}
 			}
 			if strings.Contains(lf, "::1") || strings.Contains(lf, "0:0:0:0:0:0:0:1") {
 				ps = append(ps, peers[3], peers[11])
@@ -356,12 +359,12 @@ func section_validate(c *core.Ctx, tok string) {
 	for _, d := range dirCatalogue {
 		for _, j := range []string{"/", "//", "", "/./", "/../"} {
 			for k, lf := range someLeaves {
-				if quick && ((len(j) > 1 && k > 3) || k > 5) {
+				if quick && ((len(j) > 2 && k > 1) || (len(j) > 1 && k > 3) || k > 5) {
 					continue
 				}
 				path := d + j + lf
 				addVal(c, path, strings.Contains(lf, "REMOTE"), peers[2])
-				if k < 2 {
+				if k < 2 && (!quick || len(j) <= 2) {
 					addLib(c, path, 0)
 					addLib(c, path, 1)
 					addLib(c, path, 2)
@@ -387,6 +390,9 @@ func section_validate(c *core.Ctx, tok string) {
 	rec(nil, 4)
 	for i, s := range seqs {
 		for _, lead := range []string{"/", ""} {
+			if quick && lead == "" && len(s) > 3 {
+				continue // relative: every sequence is rejected by the first check
+			}
 			path := lead + strings.Join(s, "/")
 			addVal(c, path, false, peers[0])
 			if (i+len(lead))%8 == 0 || !quick {
@@ -394,7 +400,7 @@ func section_validate(c *core.Ctx, tok string) {
 			}
 		}
 	}
-	c.CountN("exhaustive-component-sequences", 2*len(seqs))
+	c.CountN("exhaustive-rooted-component-sequences-upto-4", len(seqs))
 	// remote leaf in the same exhaustive frame (shorter)
 	seqs = nil
 	comps = []string{"", "..", "tmp", "FS_REMOTE_h_1_a"}
@@ -515,7 +521,7 @@ func section_validate(c *core.Ctx, tok string) {
 	for _, ip := range append(append([]string{}, pool...), "host", "", "1.2.3") {
 		for _, port := range []string{"19618", "80", "", "019618"} {
 			for _, p := range peers {
-				if quick && (len(ip)+len(port)+len(p.Addr))%3 != 0 {
+				if quick && (len(ip)+len(port)+len(p.Addr))%5 != 0 {
 					continue
 				}
 				addEndpoint(c, ip, port, p)
@@ -703,9 +709,9 @@ func runExchange(w *world, e exch) (o exchObs, err error) {
 
 	cp, sp := net.Pipe()
 	cconn := &addrConn{Conn: cp, remote: e.Peer.netAddr(), local: fakeAddr("127.0.0.1:40000")}
-	dl := time.Now().Add(8 * time.Second)
+	dl := time.Now().Add(30 * time.Second)
 	sp.SetDeadline(dl)
-	ctx, cancel := context.WithTimeout(context.Background(), 10*time.Second)
+	ctx, cancel := context.WithTimeout(context.Background(), 35*time.Second)
 	defer cancel()
 	cfg := &security.SecurityConfig{AuthMethods: []security.AuthMethod{security.AuthFS}, Authentication: security.SecurityRequired}
 	auth := security.NewAuthenticator(cfg, stream.NewStream(cconn))
@@ -821,11 +827,11 @@ func runExchange(w *world, e exch) (o exchObs, err error) {
 	go func() { defer close(sdone); srv() }()
 	select {
 	case <-done:
-	case <-time.After(12 * time.Second):
+	case <-time.After(40 * time.Second):
 		sp.Close()
 		cp.Close()
 		<-done
-		err = errors.New("client did not return within 12s")
+		err = errors.New("client did not return within 40s")
 	}
 	// the client has returned: nothing more will arrive, end the server script
 	sp.Close()
@@ -1005,6 +1011,8 @@ func scenarios(w *world) []scenario {
 		{name: "addr-v6-ok", path: func(u string) string { return baseDir + "/FS_REMOTE_0:0:0:0:0:0:0:1_19618_" + u }, remote: true, peer: peers[3]},
 		{name: "addr-wrong-port", path: func(u string) string { return baseDir + "/FS_REMOTE_127.0.0.1_19619_" + u }, remote: true, peer: p4},
 		{name: "addr-wrong-ip", path: func(u string) string { return baseDir + "/FS_127.0.0.2_19618_" + u }, peer: p4},
+		{name: "addr-remote-wrong-ip", path: func(u string) string { return baseDir + "/FS_REMOTE_127.0.0.2_19618_" + u }, remote: true, peer: p4},
+		{name: "addr-remote-hostname-peer", path: func(u string) string { return baseDir + "/FS_REMOTE_127.0.0.1_19618_" + u }, remote: true, peer: peers[7]},
 		{name: "addr-no-peer-address", path: func(u string) string { return baseDir + "/FS_127.0.0.1_19618_" + u }, peer: peers[1]},
 		{name: "remote-name-in-local-mode", path: func(u string) string { return baseDir + "/FS_REMOTE_h_42_" + u }},
 		{name: "local-name-in-remote-mode", path: func(u string) string { return baseDir + "/FS_" + u }, remote: true},
@@ -1064,9 +1072,12 @@ func section_exchange(c *core.Ctx, w *world) {
 	}
 	// first-step variants on accepted and rejected paths
 	for _, s1 := range step1Kinds[1:] {
-		for _, si := range []int{0, 1, 3, 10, 20} {
-			for _, s2 := range []string{"result0", "close-noread"} {
-				addExchange(c, w, mk(scs[si], s1, s2))
+		for _, s := range scs {
+			switch s.name {
+			case "local-ok", "remote-ok", "addr-remote-ok", "nested-parent", "prefix-only-leaf":
+				for _, s2 := range []string{"result0", "close-noread"} {
+					addExchange(c, w, mk(s, s1, s2))
+				}
 			}
 		}
 	}
@@ -1186,8 +1197,8 @@ func runServer(w *world, sc srvCase) (o srvObs, err error) {
 	if sc.Addr {
 		sconn = &addrConn{Conn: sp, remote: fakeAddr("127.0.0.1:40000"), local: fakeAddr("127.0.0.1:19618")}
 	}
-	cp.SetDeadline(time.Now().Add(8 * time.Second))
-	ctx, cancel := context.WithTimeout(context.Background(), 10*time.Second)
+	cp.SetDeadline(time.Now().Add(30 * time.Second))
+	ctx, cancel := context.WithTimeout(context.Background(), 35*time.Second)
 	defer cancel()
 	cfg := &security.SecurityConfig{AuthMethods: []security.AuthMethod{security.AuthFS}, Authentication: security.SecurityRequired}
 	auth := security.NewAuthenticator(cfg, stream.NewStream(sconn))
@@ -1321,7 +1332,7 @@ func quietStdout() func() {
 }
 
 func gen(c *core.Ctx) error {
-	c.Rule("A: validateFSAuthPath/fsAddrLeaf/verifyFSPathEndpoint and filepath.Clean/Dir/Base, net.ParseIP on a catalogue of recognised and near-miss leaves x parents x joiners x peers, exhaustive sequences of <=4 components from {'', '.', '..', tmp, FS_1}, every byte value inside a name, over-long fields and random mutations of accepted paths; compared with the Gallina model and judged by an independent restatement of the accepted shapes. B: the whole real client exchange against a raw-wire scripted server (9 ways to deliver the path x 12 ways to continue/end) for 35 path scenarios, with filesystem snapshots (token-named entries of /tmp, a sandbox tree, extra targets) before / at reply / after. C: the real server against 22 kinds of object left at its path. non-trivial = accepted path, exchange that created a directory, accepted server verification")
+	c.Rule("A: validateFSAuthPath/fsAddrLeaf/verifyFSPathEndpoint and filepath.Clean/Dir/Base, net.ParseIP on a catalogue of recognised and near-miss leaves x parents x joiners x peers, exhaustive sequences of <=4 components from {'', '.', '..', tmp, FS_1}, every byte value inside a name, over-long fields and random mutations of accepted paths; compared with the Gallina model and judged by an independent restatement of the accepted shapes. B: the whole real client exchange against a raw-wire scripted server (9 ways to deliver the path x 12 ways to continue/end) for 37 path scenarios, with filesystem snapshots (token-named entries of /tmp, a sandbox tree, extra targets) before / at reply / after. C: the real server against 22 kinds of object left at its path. non-trivial = accepted path, exchange that created a directory, accepted server verification")
 	c.Assume("kernel path resolution of os.Root (openat2/RESOLVE_BENEATH) and the absence of concurrent symlink swaps under /tmp are assumed, not checked")
 	c.Assume("the harness runs as root: a directory owned by another user is produced by chown; a client that is a different unprivileged user is not exercised")
 	c.Assume("os.OpenRoot(/tmp) failing is modelled but cannot be provoked on the shared /tmp")
